@@ -7,6 +7,8 @@ CLAIMED={
  "C10": ("guard dominance per entry point (gateway caller check, AVS address binding and owner membership, signer=actor, governance authority, signature result used, Wrap(nil) rejections)",
          "structured-dominance facts over type-checked AST + effect summaries (SSA key-family resolver, call graph)", "4/C10"),
 }
+CLAIMED["C09"]=("checks-before-effects on every entry point whose failure is reported but not reverted (precompile `false` returns; logged-and-skipped calls in block processing) via an origin-keyed interprocedural write-before-failure analysis; cache-context discipline d1-d4 at every CacheContext() site; deferred writes guarded by the error result",
+  "interprocedural write-before-failure analysis over type-checked AST + store effect summaries; cache-context typestate rules", "4/C09")
 NA={}
 def main():
     checks=[]
